@@ -375,6 +375,7 @@ _COMB = {
     ("Result", "unwrap_or_else"): (2, [("payload", None), ("call", 1, True, None)]),
     ("Result", "or_else"): (2, [("keep",), ("call", 1, True, None)]),
     ("Result", "is_ok_and"): (2, [("call", 1, True, None), ("false",)]),
+    ("Result", "ok"): (1, [("payload", "Some"), ("none",)]),
 }
 _VARIANTS = {"Option": ("None", "Some"), "Result": ("Ok", "Err")}
 _ADT = {"Option": "std::option::Option", "Result": "std::result::Result"}
